@@ -195,8 +195,19 @@ def _inlinable(fn):
       for d in fn.decorator_list):
     return False
   a = fn.args
-  if a.vararg or a.kwarg or a.posonlyargs:
+  if a.vararg or a.posonlyargs:
     return False
+  if a.kwarg:
+    # **kwargs that is only forwarded (`g(x, **kwargs)`) is bound to the
+    # extra keywords of each call
+    kw = a.kwarg.arg
+    for n in ast.walk(fn):
+      if isinstance(n, ast.Name) and n.id == kw:
+        fwd = any(isinstance(c, ast.Call) and any(
+            k.arg is None and k.value is n for k in c.keywords)
+                  for c in ast.walk(fn))
+        if not fwd:
+          return False
   body = _strip_doc(fn.body)
   if not body or sum(1 for _ in ast.walk(fn)) > 1500 or len(body) > \
       MAX_HELPER_STMTS:
@@ -247,23 +258,44 @@ def _bind_args(fn, call, is_method):
     return None
   for p, a in zip(pos, call.args):
     bound[p] = a
+  extra = []
   for k in call.keywords:
-    if k.arg not in params or k.arg in bound:
+    if k.arg in bound:
       return None
+    if k.arg not in params:
+      if fn.args.kwarg is None:
+        return None
+      extra.append(k)
+      continue
     bound[k.arg] = k.value
   for p in params:
     if p not in bound:
       if p not in dmap:
         return None
       bound[p] = dmap[p]
+  if fn.args.kwarg is not None:
+    bound['**' + fn.args.kwarg.arg] = extra
   return bound
 
 
 class _Subst(ast.NodeTransformer):
 
-  def __init__(self, mapping, rename):
+  def __init__(self, mapping, rename, forwarded=None):
     self.mapping = mapping      # name -> expression (Load uses only)
     self.rename = rename        # name -> new name
+    self.forwarded = forwarded or {}   # kwargs name -> [keyword, ...]
+
+  def visit_Call(self, c):
+    if self.forwarded:
+      kws = []
+      for k in c.keywords:
+        if k.arg is None and isinstance(k.value, ast.Name) and \
+            k.value.id in self.forwarded:
+          kws.extend(copy.deepcopy(x) for x in self.forwarded[k.value.id])
+        else:
+          kws.append(k)
+      c.keywords = kws
+    return self.generic_visit(c)
 
   def visit_Name(self, n):
     if n.id in self.mapping and isinstance(n.ctx, ast.Load):
@@ -416,6 +448,8 @@ class _Inliner(object):
     mapping, rename, pre = {}, {}, []
     self.counter += 1
     tag = '__%s%d' % (fn.name.strip('_'), self.counter)
+    forwarded = {p[2:]: a for p, a in bound.items() if p.startswith('**')}
+    bound = {p: a for p, a in bound.items() if not p.startswith('**')}
     for p, a in bound.items():
       same = isinstance(a, ast.Name) and a.id == p
       if p not in assigned and (_simple(a) or same):
@@ -435,7 +469,7 @@ class _Inliner(object):
     for loc in assigned - set(bound):
       if loc in caller_names and loc not in tnames:
         rename[loc] = loc + tag
-    sub = _Subst(mapping, rename)
+    sub = _Subst(mapping, rename, forwarded)
     body = [sub.visit(s) for s in body]
     if as_return:
       stmts = pre + body
